@@ -10,7 +10,7 @@ def run(tier, prop=PROP, keep=KEEP):
     ck = Check(prop, tier, "fault_enumeration")
     thorough = tier == "thorough"
     cf, cases = model(ck)
-    lmax = 160 if thorough else 64
+    lmax = 256 if thorough else 64
     nproc = min(14, NCPU)
     wd = workdir("aead")
     for cfg in ["stable", "nightly"]:
